@@ -648,7 +648,8 @@ def backoff_iter(start, stop, count=None, factor=2.0, jitter=False):
     if stop < start:
         raise ValueError('expected stop >= start, not %r' % stop)
     if count is None:
-        denom = start if start else 1
+        # a start of 0 is followed by min(1, stop); count the steps from there
+        denom = start if start else min(1.0, stop)
         count = 1 + math.ceil(math.log(stop/denom, factor))
         count = count if start else count + 1
     if count != 'repeat' and count < 0:
